@@ -220,6 +220,21 @@ def run(facts, rep, tier):
                             if b and b[0] == "let" and any((t is b[1]) if not isinstance(t, tuple) else (t[0] is b[1] and t[1] == b[2]) for t in bl):
                                 if top_index(x) >= top_index(m):
                                     late.append(x)
+                # who may write the effective bounds: only the fill from the format's row when the schema gave none
+                n_asg = 0
+                for x, xa in walk(h["body"]):
+                    if x.get("k") in ("assign", "assignop"):
+                        l = strip_refs(x["l"])
+                        if l.get("k") == "path" and l.get("res") == "local":
+                            b = scope_binding(h, xa, l["path"], x)
+                            if b and b[0] == "let" and any((t is b[1]) if not isinstance(t, tuple) else (t[0] is b[1] and t[1] == b[2]) for t in bl):
+                                n_asg += 1
+                                conds = [g for g in guards(xa, x) if g[0] == "if"]
+                                rhs = src(x["r"])
+                                okw = x.get("k") == "assign" and re.fullmatch(r"Some\(\*?\w+\)", rhs) is not None and any(re.fullmatch(r"%s\.is_none\(\)" % re.escape(l["path"]), g[1]) for g in conds)
+                                rep.ob("C10.D6", "bound-assignment-is-format-fill#%d" % n_asg, okw,
+                                       "`%s` under `%s.is_none()`: a missing bound is filled from the format's row" % (src(x)[:40], l["path"]) if okw else
+                                       "the effective bound is rewritten by `%s`: after exclusive bounds were turned into inclusive ones by +/-1 any further adjustment (rounding, clamping) can exclude integers the schema admits, so NonZero or a narrower type is chosen wrongly" % src(x)[:80], x.get("sp"))
                 rep.ob("C10.D5", "default-tested-against-final-bounds", len(bl) == 2 and not late,
                        "every assignment to the two bounds precedes the default-range test" if len(bl) == 2 and not late else
                        "the bounds are still assigned (`%s`) after the default was compared with them: a default outside the range implied by the format is not reported" % (src(late[0]) if late else "bounds not found"), (late[0] if late else m).get("sp"))
